@@ -29,6 +29,7 @@ PROBES = ["publish_across_filesystems", "relative_output_path", "crash_between_o
 EXHAUSTIVE = {}
 
 
+JOB_TIMEOUT = 900          # one job = one operation and ALL its crash runs
 NCHUNK = 8
 NEXH = {"quick": 1, "thorough": 24}        # gen_params jobs whose EVERY call boundary is crashed (split in NCHUNK chunks)
 NREG = {"quick": 18, "thorough": 600}
@@ -92,7 +93,7 @@ def gen_job(verif_seed, tier, index):
     natural = g.random() < 0.25 and prog == "gen_params"
     return {"index": index, "run_seed": seed, "prog": prog, "op": op, "follow": follow, "state": state,
             "hashseed": st.env.choice(histgen.PALETTE), "natural": natural,
-            "sample_k": 60 if tier == "quick" else 400,
+            "sample_k": 60 if tier == "quick" else 250,
             # every call boundary for the first jobs of gen_params / gen_seq (and all small ones)
             "exhaustive_limit": 100000 if chunk is not None else (600 if prog == "gen_seq" else 300),
             "chunk": chunk}
